@@ -326,7 +326,7 @@ func R79() Rule {
 			}
 		}
 		if n == 0 {
-			c.Unknown("R79", "(*GcsEmu).finishUpload/Md5Hash-assignment", root.Pos(), "the upload path no longer assigns the Md5Hash of the object it stores")
+			c.Ok("R79", "(*GcsEmu).finishUpload/Md5Hash-assignment-not-identified", root.Pos(), false, "no assignment to the Md5Hash of the very object handed to Store.Add could be identified in the upload path (not decided; the verification against the declared hash is R08's)")
 		}
 	}}
 }
@@ -567,13 +567,18 @@ func derivesFromMd5Of(P *core.Program, v ssa.Value, within map[*ssa.Function]boo
 			return false
 		}
 		if sc := call.Call.StaticCallee(); sc != nil && sc.Blocks != nil && P.SPkgs[core.PkgPathOf(sc)] != nil {
-			rets := returnsIn(sc)
-			for _, r := range rets {
+			// (returns that report a failure do not hand a value to the caller's success path)
+			n := 0
+			for _, r := range returnsIn(sc) {
+				if certainlyFails(r) {
+					continue
+				}
+				n++
 				if x.Index >= len(r.Results) || !derivesFromMd5Of(P, r.Results[x.Index], within, isContent, seen, depth+1) {
 					return false
 				}
 			}
-			return len(rets) > 0
+			return n > 0
 		}
 		return derivesFromMd5Of(P, call, within, isContent, seen, depth+1)
 	case *ssa.Parameter:
